@@ -25,11 +25,14 @@ def wfB (U : Universe) : Bool :=
 /-- Replays the implementation's history through the abstract system. -/
 def traceOracle (U : Universe) (P : Problem) (r : ImplSolve) : List String :=
   let events := parseTrace r.trace
-  match Resolvo.Abs.run U P events with
-  | .error (k, ev) => [s!"oracle-fail C02 trace: event {k} of the solver history is not a legal step of the abstract system: {repr ev}".replace "\n" " "]
-  | .ok st =>
+  match Resolvo.Abs.runOpt U P events with
+  | none =>
+    (match Resolvo.Abs.run U P events with
+     | .error (k, ev) => [s!"oracle-fail C01,C02,C03,C05 trace: event {k} of the solver history is not a legal step of the abstract system: {repr ev}".replace "\n" " "]
+     | .ok _ => ["oracle-fail C01,C02,C03,C05 trace: history rejected"])
+  | some st =>
     if r.result == "unsat" && st.failed.isNone then
-      ["oracle-fail C02 trace: Unsolvable reported without a root-level falsified clause in the history"]
+      ["oracle-fail C01,C02,C03,C05 trace: Unsolvable reported without a root-level falsified clause in the history"]
     else [s!"info trace-accepted events {events.length} clauses {st.db.length}"]
 
 def oracleSolve (U : Universe) (P : Problem) (cfg : String) (r : ImplSolve) : List String :=
@@ -42,8 +45,8 @@ def oracleSolve (U : Universe) (P : Problem) (cfg : String) (r : ImplSolve) : Li
     let sel := r.solution
     let exempt := P.soft.filter (fun s => sel.contains s)
     let o1 := if validB U P sel exempt then [] else
-      [s!"oracle-fail C01 valid: solution [{natList sel}] violates {validWhy U P sel exempt}"]
-    let o2 := if solvable then [] else [s!"oracle-fail C02 verdict: implementation returned a solution but the hard problem has none (decideSolvable=false)"]
+      [s!"oracle-fail C01,C10,C13,C14 valid: solution [{natList sel}] violates {validWhy U P sel exempt}"]
+    let o2 := if solvable then [] else [s!"oracle-fail C02,C10,C13,C14,C15 verdict: implementation returned a solution but the hard problem has none (decideSolvable=false)"]
     let o5 := if supportedB U P sel then [] else
       [s!"oracle-fail C05 supported: solution [{natList sel}] contains a solvable not reachable from the root/soft requirements (supported: [{natList (supportClosure U P sel)}])"]
     let o7 := if P.soft.isEmpty then
@@ -60,17 +63,17 @@ def oracleSolve (U : Universe) (P : Problem) (cfg : String) (r : ImplSolve) : Li
       else []
     info ++ o1 ++ o2 ++ o5 ++ o7 ++ o8
   | "unsat" =>
-    let o2 := if solvable then [s!"oracle-fail C02 verdict: implementation says Unsolvable but a solution exists (decideSolvable=true)"] else []
+    let o2 := if solvable then [s!"oracle-fail C02,C10,C13,C14,C15 verdict: implementation says Unsolvable but a solution exists (decideSolvable=true)"] else []
     info ++ o2
   | "cancelled" =>
     if cancelled then info else info ++ [s!"oracle-fail C12 spurious-cancel: Cancelled returned although should_cancel_with_value never fired"]
   | "panic" =>
-    info ++ [s!"oracle-fail C04 panic: {r.resultArg}"]
-  | other => info ++ [s!"oracle-fail C04 outcome: unexpected result {other}"]
+    info ++ [s!"oracle-fail C04,C10,C13,C14 panic: {r.resultArg}"]
+  | other => info ++ [s!"oracle-fail C04,C10,C13 outcome: unexpected result {other}"]
   |> fun ls =>
     -- C09 / C10 at-most-once on every outcome; causality for sync runs without hints
     let d := match dupCalls r.calls with
-      | some c => [s!"oracle-fail C09 at-most-once: provider call {c} issued twice"]
+      | some c => [s!"oracle-fail C09,C10,C13 at-most-once: provider call {c} issued twice"]
       | none => []
     let c := if sync && noHints U && !cfgGet cfg "sortpeeks" == "1" then
         match causalCheck U P r.calls with
